@@ -398,6 +398,16 @@ fn main() {
     let mut index: Vec<Value> = Vec::new();
 
     match kind.as_str() {
+        "adaptive" => {
+            println!("cargo:rerun-if-env-changed=CORPUS_THRESHOLDS");
+            let th: Vec<usize> = env::var("CORPUS_THRESHOLDS")
+                .unwrap_or_default()
+                .split(',')
+                .filter_map(|s| s.trim().parse().ok())
+                .collect();
+            let specs = enumerate::adaptive(&th);
+            emit_modules(&out, &specs, shard_i, shard_n, &mut mods_rs, &mut index, false);
+        }
         "witness" => {
             let specs = witness::specs(thorough);
             emit_modules(&out, &specs, shard_i, shard_n, &mut mods_rs, &mut index, true);
